@@ -17,7 +17,11 @@ for d in args:
     if os.path.exists(os.path.join(d, 'patch.diff')):      # a benign/<id> or seeded/<id> directory: use the cached facts of that patch
         v = {'kind': 'diff', 'patch': os.path.abspath(os.path.join(d, 'patch.diff'))}
         d = os.path.join(selftest.VCACHE, selftest._variant_key(v, selftest._repo_state()))
-    P = facts.load(sorted(glob.glob(os.path.join(d, '*.jsonl'))))
+    fl = sorted(glob.glob(os.path.join(d, '*.jsonl')))
+    if not fl:
+        print('== %s: no cached facts (run selftest.py first)' % d)
+        continue
+    P = facts.load(fl)
     il = P.inline_log
     fired = []
     for prop in sorted(core.RULES):
